@@ -401,6 +401,15 @@ func (h *c39) keygenToGo(i int64, r *rand.Rand) {
 			if len(v) == 0 {
 				m.Count("A_same_key", 1)
 			}
+			// unencrypted: the witness decoder sees the private components too
+			if ps, err := fm.ParsePrivSection(c.Priv); err == nil {
+				if privEqual(key, ps) {
+					m.Count("A_private_components_equal", 1)
+				} else if _, isSigner := key.(ssh.Signer); !isSigner {
+					wit["api"] = cl.api
+					m.Violation("keygen-written-key:private-components-differ:"+kt.tag, wit)
+				}
+			}
 		}
 		// asking for decryption of an unprotected key: any error is fine; a key must still be the key
 		for _, cl := range passCalls([]byte("irrelevant")) {
@@ -451,6 +460,23 @@ func (h *c39) keygenToGo(i int64, r *rand.Rand) {
 		h.wrongPassphrases(r, pemb, pass, wit, "A")
 	}
 	m.Distinct(fmt.Sprintf("A %s %s pass=%s comment=%s rounds=%d %s", kt.tag, c.Cipher, pcls, ccls, rounds, outcome))
+}
+
+// privEqual compares the private components of a parsed raw key with the
+// witness decoding of the file's private section.
+func privEqual(key any, ps *fm.PrivSection) bool {
+	switch k := key.(type) {
+	case *ed25519.PrivateKey:
+		return ps.Ed != nil && len(ps.Ed.Priv) == 64 && bytes.Equal((*k).Seed(), ps.Ed.Priv[:32])
+	case *ecdsa.PrivateKey:
+		return ps.EC != nil && k.D.Cmp(ps.EC.D) == 0
+	case *rsa.PrivateKey:
+		if ps.RSA == nil || len(k.Primes) != 2 || k.D.Cmp(ps.RSA.D) != 0 {
+			return false
+		}
+		return (k.Primes[0].Cmp(ps.RSA.P) == 0 && k.Primes[1].Cmp(ps.RSA.Q) == 0) || (k.Primes[0].Cmp(ps.RSA.Q) == 0 && k.Primes[1].Cmp(ps.RSA.P) == 0)
+	}
+	return false
 }
 
 func nilIfNil(s ssh.Signer) any {
